@@ -41,6 +41,7 @@ enum {
 	FM_LEGACYSHAPE = 16384, // SSE/FO4 file that still contains NiTriShape geometry (built as Skyrim LE, then re-versioned)
 	FM_EXPORTINFO = 32768,  // 300-character export info in the header
 	FM_TEXPATH = 65536,     // a texture path that needs cleaning in texture slot 0
+	FM_CHILD0 = 33554432,   // a NiCamera child of the root is moved to block index 0 (the root to index 1): non-zero root index with a referenced block in front
 	FM_VERTEXTRA = 16777216, // SSE/FO4/FO76 unskinned: full-precision BSTriShape whose vertices carry one extra float each
 	FM_STRIPPART = 8388608, // OB/FO3/SK with FM_SKIN: the skin partition stores its faces as strips (one strip per triangle), as game files do
 	FM_SEGMENTS = 4194304,  // FO4/FO76: the shape carries 2 segments, the first with 2 sub-segments (triangle 0 in sub-segment 1, triangle 1 in segment 2)
@@ -296,6 +297,18 @@ static inline FmModel fm_build(NifFile& nif, int ver, int feat) {
 			order[looseId] = 0;
 			hdr.SetBlockOrder(order);
 		}
+	}
+	if ((feat & FM_CHILD0) && !(feat & FM_ROOT1)) {
+		auto [camS, cam] = nifly::make_unique<NiCamera>();
+		cam->name.get() = "Cam";
+		uint32_t camId = hdr.AddBlock(std::move(camS));
+		nif.GetRootNode()->childRefs.AddBlockRef(camId);
+		uint32_t n = hdr.GetNumBlocks();
+		std::vector<uint32_t> order(n);
+		for (uint32_t i = 0; i < n; i++)
+			order[i] = i + 1;
+		order[camId] = 0;
+		hdr.SetBlockOrder(order);
 	}
 	if (feat & FM_EXPORTINFO)
 		hdr.SetExportInfo(std::string(300, 'e'));
